@@ -156,13 +156,35 @@ func ruleC19Delegation(c *Ctx, r *Reporter) {
 			continue
 		}
 		ops := map[string][]ssa.CallInstruction{}
-		AllInstrs(fn, true, func(_ *ssa.Function, ins ssa.Instruction) {
-			if call, ok := ins.(ssa.CallInstruction); ok {
+		bind := map[ssa.Value]ssa.Value{} // parameter of a same-package helper -> the handler's argument
+		var collect func(f *ssa.Function, d int)
+		collect = func(f *ssa.Function, d int) {
+			AllInstrs(f, true, func(_ *ssa.Function, ins ssa.Instruction) {
+				call, ok := ins.(ssa.CallInstruction)
+				if !ok {
+					return
+				}
 				if o := opName(call); o != "" {
 					ops[o] = append(ops[o], call)
 				}
-			}
-		})
+				// an unexported helper of the service package (extracted from the handler): its operations are the handler's
+				h := call.Common().StaticCallee()
+				if h == nil || d >= 2 || h.Pkg != fn.Pkg || h.Object() == nil || h.Object().Exported() || len(h.Blocks) == 0 {
+					return
+				}
+				for i, p := range h.Params {
+					if i < len(call.Common().Args) {
+						a := call.Common().Args[i]
+						if b, ok := bind[a]; ok {
+							a = b
+						}
+						bind[p] = a
+					}
+				}
+				collect(h, d+1)
+			})
+		}
+		collect(fn, 0)
 		var bad []string
 		allowed := map[string]bool{}
 		for _, q := range row.required {
@@ -189,7 +211,11 @@ func ruleC19Delegation(c *Ctx, r *Reporter) {
 					if f == "" || i >= len(args) {
 						continue
 					}
-					if got := reqFieldName(args[i]); got != f {
+					a := args[i]
+					if b, ok := bind[a]; ok {
+						a = b
+					}
+					if got := reqFieldName(a); got != f {
 						bad = append(bad, fmt.Sprintf("%s receives %s as argument %d instead of the request's %s", o, Path(args[i]), i, f))
 					}
 				}
@@ -528,6 +554,22 @@ func ruleC19Rejection(c *Ctx, r *Reporter) {
 		}
 		mc, ok := d.Call.Value.(*ssa.MakeClosure)
 		if !ok {
+			// defer helper(tx, &err): a same-package function that rolls back, handed the address of the error variable
+			if h := d.Call.StaticCallee(); h != nil && h.Pkg == fn.Pkg && len(h.Blocks) > 0 {
+				rolls := false
+				AllInstrs(h, true, func(_ *ssa.Function, x ssa.Instruction) {
+					if call, ok := x.(ssa.CallInstruction); ok && opName(call) == "Transaction.Rollback" {
+						rolls = true
+					}
+				})
+				if rolls {
+					for _, a := range d.Call.Args {
+						if al, ok := a.(*ssa.Alloc); ok && isErrorType(deref(al.Type())) {
+							def, cell = d, al
+						}
+					}
+				}
+			}
 			return
 		}
 		clo := mc.Fn.(*ssa.Function)
